@@ -14,7 +14,7 @@ func init() { Register("C36", c36) }
 
 func c36(x *Ctx) {
 	c := x.C
-	c.Explanation = "C36 (graceful shutdown drains and stops cleanly): decides (1) drain – on the shutdown path (worker loop exit on closed input, or InMemCollector.Stop before the outgoing channel is closed) buffered traces are decided and handed to send, as the README promises for restarts; (2) stop order – monitor goroutine joined, then worker inputs closed, workers joined, then the outgoing channel closed, then the sender joined; (3) every goroutine started by a component has a way out: its select loop has a case on a stop signal (done/stop channel or context) from which every path leaves the loop; (4) a constructor that can return nil has its result nil-checked before a method is called on it in a Stop function. Transmission flush on stop is decided under C26."
+	c.Explanation = "C36 (graceful shutdown drains and stops cleanly): decides (1) drain – on the shutdown path (worker loop exit on closed input, or InMemCollector.Stop before the outgoing channel is closed) buffered traces are decided and handed to send, as the README promises for restarts; (2) stop order – monitor goroutine joined, then worker inputs closed, workers joined, then the outgoing channel closed, then the sender joined; (3) every goroutine started by a component has a way out: its select loop has a case on a stop signal (done/stop channel or context) from which every path leaves the loop; (4) a constructor that can return nil has its result nil-checked before a method is called on it in a Stop function; (5) the functions DirectTransmission.Stop runs to flush the remaining batches never read the stop signal it has just closed; (6) every blocking wait in the OpAMP agent also listens to the agent's context or a done channel. Transmission flush on stop is decided under C26."
 	c.NotCovered = "what has been delivered by the time the process exits (HTTP), ShutdownDelay, goroutines inside libraries."
 	// ---- 1 drain -------------------------------------------------------------------------------------
 	const r1 = "C36.drain-on-stop"
@@ -304,6 +304,82 @@ func c36(x *Ctx) {
 		})
 	}
 	c.Min(r4, 1)
+
+	// ---- 5 what Stop runs to flush does not look at the stop signal ------------------------------------------------------
+	// (DirectTransmission.Stop closes d.stop first and then sends the remaining batches through sendBatch: code on
+	// that path that consults d.stop behaves as "shutting down" for every flushed batch – e.g. skips the Retry-After
+	// wait and throws the batch away)
+	const r5 = "C36.flush-ignores-stop-signal"
+	if st := x.Fn(r5, "transmit", "DirectTransmission", "Stop"); st != nil {
+		stopF := eng.FieldIs("transmit", "DirectTransmission", "stop")
+		c.Examined++
+		bad := ""
+		for g := range x.Reachable(st) {
+			if g == st || eng.Root(g) == st || !x.P.Funcs()[eng.Root(g)] || x.P.FuncRel(eng.Root(g)) != "transmit" {
+				continue
+			}
+			for _, a := range eng.FieldAccesses([]*ssa.Function{g}, stopF) {
+				bad = FName(g) + " at " + x.Pos(a.Instr)
+			}
+		}
+		c.Decide(bad == "", r5, "DirectTransmission.Stop", x.PosOf(st.Pos()), "the functions Stop uses to flush never read the stop signal",
+			"the stop signal is read in "+bad+", which Stop runs to flush the remaining batches after it has closed that signal: every flushed batch is treated as if shutdown had interrupted it (waits are skipped, retries fail), so events pending at shutdown are lost")
+	}
+
+	// ---- 6 blocking waits inside stoppable goroutines can be interrupted -------------------------------------------------
+	const r6 = "C36.wait-can-be-interrupted"
+	{
+		agentFuncs := x.PkgFuncs("agent")
+		n := 0
+		for _, f := range agentFuncs {
+			eng.Instrs(f, func(in ssa.Instruction) {
+				switch y := in.(type) {
+				case *ssa.UnOp:
+					if y.Op != token.ARROW || y.CommaOk {
+						return
+					}
+					if isStopSignal(y.X) {
+						return
+					}
+					// a ticker / timer channel always fires
+					if fr, _, ok := eng.LoadedField(y.X); ok && fr.Name == "C" {
+						return
+					}
+					if cl, ok := y.X.(*ssa.Call); ok && (strings.HasSuffix(eng.CalleeName(cl), ".Chan") || strings.HasSuffix(eng.CalleeName(cl), ".After")) {
+						return
+					}
+					n++
+					c.Examined++
+					c.Violate(r6, BaseName(f)+"/receive", x.Pos(in), "the OpAMP agent waits on a channel with a plain receive: when the agent is stopped (or the server never confirms) the goroutine blocks forever – the wait has to be a select that also listens to the agent's context")
+				case *ssa.Select:
+					if !y.Blocking {
+						return
+					}
+					hasStop, hasOther := false, false
+					for _, st := range y.States {
+						if st.Dir != types.RecvOnly {
+							continue
+						}
+						if isStopSignal(st.Chan) {
+							hasStop = true
+						} else {
+							hasOther = true
+						}
+					}
+					if !hasOther {
+						return
+					}
+					n++
+					c.Examined++
+					c.Decide(hasStop, r6, BaseName(f)+"/select", x.Pos(in), "the wait also listens to the stop signal",
+						"a blocking select in the OpAMP agent has no case on the agent's context or a done channel: it cannot be interrupted by Stop")
+				}
+			})
+		}
+		if n == 0 {
+			c.Hold(r6, "agent/no-waits", "agent/agent.go", "no blocking waits in the agent package")
+		}
+	}
 }
 
 func isStopSignal(ch ssa.Value) bool {
